@@ -704,6 +704,8 @@ def run(ck, rng, tier):
              ["dv_append", 0, 0.625], ["dv_sort", 0], ["dv_get", 0, 0], ["dv_new", 1, 3], ["dv_set", 1, 0, 2.5], ["dv_set", 1, 1, 2.25], ["dv_set", 1, 2, 2.0], ["dv_sort", 1]]
     hs[3] = [["dv_new", 0, 3], ["dv_set", 0, 1, 2.5], ["dv_new", 1, 0], ["dv_copy", 1, 0], ["dv_append", 0, 1.0], ["dv_append", 1, 2.0], ["dv_del", 0], ["dv_del", 1],
              ["ui_new", 0, 5], ["ui_get", 0, 2 ** 32 + 2], ["ui_get", 0, 3 * 2 ** 32], ["ui_get", 0, 4]]
+    hs[4] = [["t_init", 0], ["t_addmat", 0, 2, 2], ["t_set", 0, 0, 1, 1, 2.5], ["t_init", 1], ["t_addmat", 1, 1, 3], ["t_addmat", 1, 2, 1], ["t_addmat", 1, 3, 2],
+             ["t_set", 1, 2, 1, 1, -1.0], ["t_copy", 1, 0], ["t_get", 0, 2, 1, 1], ["t_copy", 0, 1], ["t_init", 2], ["t_copy", 2, 1], ["t_addmat", 1, 1, 1]]
     hs[1] = [["s_init", 0], ["s_appdbl", 0, 1e57], ["s_appdbl", 0, -3.5e120], ["s_appdbl", 0, 1e300], ["s_appdbl", 0, 0.25], ["s_new", 1, 2], ["s_extend", 0, 1, 2]]
     with ThreadPoolExecutor(max_workers=14) as ex:
         results = list(ex.map(lambda o: run_history(exe, o), hs))
